@@ -101,4 +101,71 @@ Proof.
   destruct b as [[|] c f [|] [|]| | | |]; try discriminate. apply N.eqb_eq in Hp. now subst.
 Qed.
 
+(** * Stacked hooks *)
+
+Lemma lookup_request t m : via_hook_ok tbl t m = true -> exists f r, lookup tbl t m = Some (BDeleg OHook m true f r).
+Proof.
+  unfold via_hook_ok. destruct (lookup tbl t m) as [b|]; [|discriminate].
+  destruct b as [[|] c [|] [|] [|]| | | |]; try discriminate. intros H. apply N.eqb_eq in H. subst. eauto.
+Qed.
+
+(** every hook of the stack sees the request exactly once, outermost first, then the underlying client *)
+Theorem stack_once : forall ls i m, In m client_requests ->
+  scall tbl (stack ls i) m = Some (map (fun l => SHook l m) ls ++ [SInner m i]).
+Proof.
+  intros ls i m Hin. destruct ok_parts as (A & _). rewrite forallb_forall in A.
+  destruct (lookup_request _ _ (A m Hin)) as (f & r & Hl).
+  induction ls as [|l ls IH]; [reflexivity|].
+  cbn [stack fold_right scall]. fold (stack ls i). rewrite Hl, IH. reflexivity.
+Qed.
+
+Theorem dstack_once : forall ls j m, In m dedicated_requests ->
+  sdcall tbl (dstack ls j) m = Some (map (fun l => SHook l m) ls ++ [SInner m j]).
+Proof.
+  intros ls j m Hin. destruct ok_parts as (_ & B & _). rewrite forallb_forall in B.
+  destruct (lookup_request _ _ (B m Hin)) as (f & r & Hl).
+  induction ls as [|l ls IH]; [reflexivity|].
+  cbn [dstack fold_right sdcall]. fold (dstack ls j). rewrite Hl, IH. reflexivity.
+Qed.
+
+(** the derived clients of a stack are stacks of the same hooks over the derived underlying clients *)
+Theorem stack_dedicate en : forall ls i,
+  sdedicate tbl en mDedicate (stack ls i) = Some (dstack ls (env_dedicate en i)) /\
+  sdedicate tbl en mDedicated (stack ls i) = Some (dstack ls (env_dedicate en i)).
+Proof.
+  destruct ok_parts as (_ & _ & _ & _ & C & D & _).
+  induction ls as [|l ls IH]; intros i; [split; reflexivity|].
+  destruct (IH i) as [I1 I2]. cbn [stack fold_right sdedicate dstack]. fold (stack ls i). fold (dstack ls (env_dedicate en i)). split.
+  - destruct (lookup tbl WHookclient mDedicate) as [b|]; [|discriminate].
+    destruct b as [| | c [| |] [|] [|] [|] | |]; try discriminate. rewrite D, I1. reflexivity.
+  - destruct (lookup tbl WHookclient mDedicated) as [b|]; [|discriminate].
+    destruct b as [| c [| |] [|] [|] [|] | | |]; try discriminate. rewrite C, I2. reflexivity.
+Qed.
+
+Theorem stack_nodes en : forall ls i,
+  snodes tbl en (stack ls i) = Some (map (stack ls) (env_nodes en i)).
+Proof.
+  destruct ok_parts as (_ & _ & _ & _ & _ & _ & E).
+  induction ls as [|l ls IH]; intros i; [reflexivity|].
+  cbn [stack fold_right snodes]. fold (stack ls i).
+  destruct (lookup tbl WHookclient mNodes) as [b|]; [|discriminate].
+  destruct b as [| | | c [| |] [|] [|] |]; try discriminate. rewrite E, IH. cbn [option_map]. now rewrite map_map.
+Qed.
+
+(** any chain of derivations from a stack ends in a stack of the same hooks (over the derived underlying client) *)
+Theorem stack_derive en : forall p ls i x,
+  sderive tbl en (stack ls i) p = Some x ->
+  (exists j, x = inl (stack ls j)) \/ (exists j, x = inr (dstack ls j)).
+Proof.
+  induction p as [|d p IH]; intros ls i x H; cbn [sderive] in H.
+  - inversion H; subst. left. eauto.
+  - destruct d as [| |k].
+    + destruct (stack_dedicate en ls i) as [_ E]. rewrite E in H. inversion H; subst. right. eauto.
+    + destruct (stack_dedicate en ls i) as [E _]. rewrite E in H. inversion H; subst. right. eauto.
+    + rewrite stack_nodes in H.
+      destruct (nth_error (map (stack ls) (env_nodes en i)) k) as [c'|] eqn:En; [|discriminate].
+      apply nth_error_In in En. apply in_map_iff in En. destruct En as (j & <- & _).
+      exact (IH ls j x H).
+Qed.
+
 End Table.
